@@ -21,6 +21,7 @@ import itertools
 import threading
 import contextlib
 import subprocess
+import multiprocessing as mp
 
 from .remote import send_msg, recv_msg, set_keepalive, set_linger, default_port, ConnectionClosedError
 from .worker import WorkerTerminatedError
@@ -55,6 +56,24 @@ class RemoteServer():
         self.socket = server
         self.closed = False
 
+    def _kill_unregistered_children(self):
+        ''' A worker which is being set up (or has just been handed over to its client) when the server
+            is asked to stop is not in ``self.children`` yet - its process still has to go.
+            Helper processes of the registered contexts are left alone, they clean up after themselves.
+        '''
+        helpers = set()
+        for ctx in getattr(self, 'contexts', {}).values():
+            worker = getattr(ctx, '_worker', None)
+            if worker is not None:
+                helpers.add(worker.pid)
+
+        for proc in mp.active_children():
+            if proc.pid not in helpers:
+                try:
+                    proc.terminate()
+                except Exception:
+                    pass
+
     def install_handlers(self):
         def cleanup(*args):
             for child in self.children:
@@ -62,6 +81,7 @@ class RemoteServer():
                     os.kill(child.pid, signal.SIGTERM)
 
             self.children.clear()
+            self._kill_unregistered_children()
             signal.signal(signal.SIGTERM, signal.SIG_DFL)
             os.kill(os.getpid(), signal.SIGTERM)
 
@@ -184,6 +204,7 @@ class RemoteServer():
 
             self.children.clear()
             self.contexts.clear()
+            self._kill_unregistered_children()
 
         logger.info('Remote server closed')
         self.closed = True
